@@ -39,7 +39,7 @@ MANIFEST = {
 
 ULIMIT_KB = 2000000
 # further theorem files of C16 (each one re-checked and audited like C16Theorems.v)
-EXTRA_THEOREM_FILES = ["C16TheoremsParse.v", "C16TheoremsAux.v"]
+EXTRA_THEOREM_FILES = ["C16TheoremsParse.v", "C16TheoremsAux.v", "C16TheoremsConfRec.v"]
 
 
 def build(ctx):
